@@ -74,7 +74,7 @@ inline Plan Gen(uint64_t seed)
          default:
             if (gw == GW_WS) p.push_back("back");
             else if ((duplex)&&(wl.oneIn(2))) p.push_back(wl.oneIn(5) ? ("rsetenc " + I(wl.below(10))) : std::string("back"));
-            else if (((gw == GW_BIN)||(gw == GW_TMPL)||(gw == GW_TEXT)||(gw == GW_SLIP)||((gw == GW_RAW)&&(minchunk == 0)))&&(wl.oneIn((gw == GW_TMPL) ? 4 : 10))) p.push_back("reset " + I(wl.below(3)));   // both ends Reset() at a quiescent point (a reconnect), then carry on (text gateway: the new stream may use another line terminator)
+            else if (((gw == GW_BIN)||(gw == GW_TMPL)||(gw == GW_TEXT)||(gw == GW_SLIP)||((gw == GW_RAW)&&(minchunk == 0)))&&(wl.oneIn((gw == GW_TMPL) ? 4 : 10))) p.push_back(((gw != GW_RAW)&&(wl.oneIn(2))) ? ("resetmid " + U(wl.oneIn(4) ? 0 : (1 + wl.below(wl.oneIn(2) ? 40 : 3000)))) : ("reset " + I(wl.below(3))));   // both ends Reset() at a quiescent point (a reconnect), then carry on (text gateway: the new stream may use another line terminator)
             else if (((gw == GW_BIN)||(gw == GW_TMPL))&&(wl.oneIn(4))) p.push_back("setenc " + I(wl.below(10)));
             else p.push_back("out 0");
          break;
@@ -322,6 +322,29 @@ inline void Exec(const Plan & plan, RunResult & res)
                if ((h.gw == GW_TEXT)&&(t.size() >= 2)) {PlainTextMessageIOGateway * tg = dynamic_cast<PlainTextMessageIOGateway *>(h.S()); static const char * eols[] = {"\r\n", "\n", "\r"}; if (tg) {tg->SetOutgoingEndOfLineString(eols[(h.cfg.i("eol", 0) + ToU(t[1])) % 3]); res.stats.inc("p.reset_with_other_line_terminator");}}
             }
             else res.stats.inc("p.reset_skipped_not_quiescent");
+            h.a2b.SetSched(true, sv[0]); h.a2b.SetSched(false, sv[1]); h.b2a.SetSched(true, sv[2]); h.b2a.SetSched(false, sv[3]);
+         }
+      }
+      else if ((t[0] == "resetmid")&&(t.size() >= 2))
+      {
+         // a connection lost at an arbitrary byte: the sender has written everything it had, the receiver has consumed only the first k bytes of what is in flight (usually
+         // stopping inside a Message), the rest is gone.  Both ends are Reset() and carry on over a fresh stream: what had not arrived is lost, everything sent afterwards is owed.
+         const bool resettable = (h.gw == GW_BIN)||(h.gw == GW_TMPL)||(h.gw == GW_TEXT)||(h.gw == GW_SLIP);
+         if ((resettable)&&(h.S())&&(h.R()))
+         {
+            const std::vector<uint32_t> sv[4] = {h.a2b.wsched, h.a2b.rsched, h.b2a.wsched, h.b2a.rsched};
+            const std::vector<uint32_t> wholeBuf(1, 0xffffffffu);
+            h.a2b.SetSched(true, wholeBuf); h.a2b.SetSched(false, wholeBuf);
+            for (int i=0; (i<4096)&&(h.SenderIdle() == false); i++) h.DoOut(0);
+            if (h.SenderIdle())
+            {
+               const uint32 k = (uint32) std::min<uint64_t>(ToU(t[1]), 1u<<20);
+               if (k > 0) {h.a2b.SetSched(false, std::vector<uint32_t>(1, k)); h.DoIn(k); h.CheckPrefix("before the connection was lost");}
+               if (!h.a2b.q.empty()) res.stats.inc("f.connection_lost_mid_stream");
+               h.a2b.q.clear(); h.b2a.q.clear();
+               h.sent.resize(h.got.size()); h.sentBack.resize(h.gotBack.size());
+               h.S()->Reset(); h.R()->Reset(); res.stats.inc("p.reset_and_reuse_after_loss");
+            }
             h.a2b.SetSched(true, sv[0]); h.a2b.SetSched(false, sv[1]); h.b2a.SetSched(true, sv[2]); h.b2a.SetSched(false, sv[3]);
          }
       }
